@@ -162,7 +162,7 @@ CLAIMS["C10"] = {
             "the set's insert reports true exactly for a new tuple, len counts distinct tuples, contains = membership, iter yields every distinct tuple "
             "once; the counted set's insert always reports true, len counts every insert, contains = membership, the stored multiplicity of every tuple "
             "is its number of inserts; the set's extend from a havoc iterator (any legal size_hint, <= 2 offered tuples) is repeated insert; (thorough) set equality "
-            "is equality of tuple sets and counted-set equality is multiset equality, whatever the insertion order, whatever the insertion order; counted-set equality compares "
+            "is equality of tuple sets and counted-set equality is multiset equality, whatever the insertion order (two inserts per side); counted-set equality compares "
             "multiplicities ({a,a,b} != {a,b,b} and {a,a,b} == {b,a,a} for two concrete tuples, three inserts per side: quick tier); (thorough) the same two types on the REAL hashbrown table for one tuple.",
     "note": "NOT covered: iteration and drain of VariadicCountedHashSet (flat_map over a symbolic multiplicity: > 900 s of CBMC even for one tuple), extend of the counted set (measured > 8 min and > 30 GB of CBMC), "
             "FromIterator / into_iter of the two hash-backed sets, GHT users of these collections. Trusted: the hashbrown::hash_table contract double (an "
